@@ -57,10 +57,40 @@ fn epcsaft_t_dependent(spec: &ModelSpec) -> bool {
     water || kij_t
 }
 
+/// Temperatures at which the model is only piecewise smooth in T: the Peng-Robinson alpha
+/// function (1 + kappa (1 - sqrt(T/Tc)))^2 enters the mixing rule through sqrt(a_i a_j), which
+/// has a kink where 1 + kappa (1 - sqrt(T_r)) changes sign; ePC-SAFT interpolates tabulated
+/// permittivities linearly between the data points.
+fn kink_temperatures(spec: &ModelSpec) -> Vec<f64> {
+    let mut out = vec![];
+    for p in &spec.pure {
+        let m = &p["model_record"];
+        if spec.family == Family::PengRobinson {
+            if let (Some(tc), Some(w)) = (m["tc"].as_f64(), m["acentric_factor"].as_f64()) {
+                let kappa = 0.37464 + (1.54226 - 0.26992 * w) * w;
+                if kappa > 0.0 {
+                    out.push(tc * (1.0 + 1.0 / kappa).powi(2));
+                }
+            }
+        }
+        if let Some(data) = m["permittivity_record"]["ExperimentalData"]["data"].as_array() {
+            for d in data {
+                if let Some(t) = d[0].as_f64() {
+                    out.push(t);
+                }
+            }
+        }
+    }
+    out
+}
+
 struct Cmp<'a> {
     obs: &'a mut Obs,
     known_t: bool,
     conclusive: u32,
+    /// relative step sizes for comparisons that involve T, and whether to skip them (a kink closer than the smallest stencil)
+    t_steps: [f64; 3],
+    t_skip: bool,
 }
 
 impl Cmp<'_> {
@@ -79,13 +109,18 @@ impl Cmp<'_> {
         localise: Option<&dyn Fn() -> String>,
     ) {
         self.obs.count();
+        if involves_t && self.t_skip {
+            self.obs.inconclusive(format!("{label} (temperature within a stencil of a kink of the model)"));
+            return;
+        }
+        let steps = if involves_t { self.t_steps } else { [2e-2, 5e-3, 6e-2] };
         // three step sizes; Ok at any step => Ok (the estimate with the smallest error decides
         // there); a mismatch must be seen at two step sizes with consistent numeric values
         // (a kink of a piecewise-smooth model inside one stencil is not a violation).
         let mut verdict = DVerdict::Inconclusive;
         let mut info = String::new();
         let mut mism: Vec<(f64, f64)> = vec![];
-        for h_rel in [2e-2, 5e-3, 6e-2] {
+        for h_rel in steps {
             match ridders(&mut f, x0, h_rel * x0.abs()) {
                 None => {
                     if info.is_empty() {
@@ -247,10 +282,19 @@ pub fn check(case: &Case, obs: &mut Obs) {
     for (name, _) in s.residual_helmholtz_energy_contributions() {
         obs.class(format!("contribution:{name}"));
     }
+    let kinks = kink_temperatures(spec);
+    let near = |frac: f64| kinks.iter().any(|tk| (tk - t0).abs() < frac * t0);
+    // Ridders shrinks the initial step, so a kink matters within ~1.5 x the largest initial step
+    let (t_steps, t_skip) = if near(0.09) { ([2e-3, 1e-3, 4e-3], near(0.007)) } else { ([2e-2, 5e-3, 6e-2], false) };
+    if near(0.09) {
+        obs.class("small T-steps (kink of the model nearby)");
+    }
     let mut c = Cmp {
         obs,
         known_t,
         conclusive: 0,
+        t_steps,
+        t_skip,
     };
     let m = &model;
 
